@@ -139,4 +139,26 @@ def check_order(ctx):
     callers_am = {norm_fn(c).split("::{closure")[0] for c in cg.inn.get(AM + "::insert_actor", ())}
     ok = callers_os == {AM + "::insert_actor"} and callers_am == {AM + "::put_actor", AM + "::put_actor_ref"}
     ctx.ob("N2", "insert_actor|caller chain", ok, "", "OpSet::insert_actor <- Automerge::insert_actor <- put_actor / put_actor_ref" if ok else "insert_actor gained callers %s / %s" % (sorted(callers_os), sorted(callers_am)))
+    # ---------------- N4: an increment naming a non-counter op is an overwrite, on every path that attaches successors from the batch
+    ctx.rule("N4", "sibling agreement in the merge walkers: every store into a change op's `succ` (successors found in the same batch) is dominated by normalize_increment_successors")
+    n4 = 0
+    for p, r in sorted(f.fns.items()):
+        if r["ckey"] != ("automerge", "lib") or "op_set2::change::batch::" not in p or "{closure" in p:
+            continue
+        bd = cfg.body(r)
+        stores = [(bi, st) for bi, blk in enumerate(bd.blocks) if not blk.get("cleanup") for st in blk["st"] if st["d"]["p"] and st["d"]["p"][-1] == ".succ" and st["rv"]["k"] == "Use"]
+        if not stores:
+            continue
+        norm_calls = [bi for bi, t in bd.calls() if (callee(t) or "").endswith("batch::normalize_increment_successors")]
+        seen_sp = set()
+        for bi, st in stores:
+            if st["sp"] in seen_sp:
+                continue                    # drop elaboration duplicates the assignment
+            seen_sp.add(st["sp"])
+            n4 += 1
+            ctx.analysed_fns.add(p)
+            ok = any(bd.block_dominates(nb, bi) for nb in norm_calls)
+            ctx.ob("N4", "%s|successors normalised before they are attached" % norm_fn(p).split("batch::")[-1], ok, st["sp"], "normalize_increment_successors first" if ok else
+                   "successors found in the same batch are attached without normalising increments: an increment over a non-counter value stays an increment when the two arrive together but is an overwrite when they arrive one by one")
+    ctx.floor("stores into a change op's succ in the merge walkers", n4, 2)
     return f
